@@ -165,5 +165,6 @@ def run(ck, ctx):
         args = repr([um.expr_of_operand(a, 6) for _, t, c, _ in um.calls() for a in t["args"]])
         ck.ob("C28.4", "update-or-in", "entry" in names and "or_default" in names and "bitor_assign" in names and "'addr'" in args and "'set'" in args,
               "update_mem_accesses ORs `set` into the entry for `addr` (%s)" % names, "src/sim/observer.rs:%s" % um.line)
+    ck.include("C09", ctx, "C28.5", {"C09.2", "C09.3"}, "every program access goes through read_mem/write_mem with the machine's tracked context")
     ck.assume("all program accesses go through read_mem/write_mem with a tracked context (C09.2, C09.3), including vector fetches and RTI pops (C08, C10)")
     ck.assume("I/O addresses are recorded as well; the property restricts its claim to non-I/O addresses")
